@@ -53,7 +53,11 @@ def start_project(spec, sim_absence):
             if hasattr(t, "set_all_attributes_from_json") and t.file_path:
                 t.set_all_attributes_from_json(remove_absence_time_list=False)
                 t.set_work_amount_progress_of_unit_step_time(m.project.unit_timedelta)
-    if sim_absence and sim_absence[0] == "revised":
+    if sim_absence and sim_absence[0] == "looked-at":
+        # a run cut after three steps (tasks still READY / WORKING) and looked at through every read-only helper before the edits
+        m.project.simulate(max_time=3, absence_time_list=list(sim_absence[1:]))
+        runner.read_only_calls(m.project)
+    elif sim_absence and sim_absence[0] == "revised":
         # a run stopped at step 2 whose first part was planned with the holiday sim_absence[1:] (all of it after the stop); the continuation cancels it
         m.project.simulate(max_time=2, absence_time_list=list(sim_absence[1:]))
         m.project.simulate(max_time=spec.get("sim_max_time", 40), absence_time_list=[], initialize_state_info=False, initialize_log_info=False)
@@ -367,7 +371,7 @@ def run(tier, seed):
         depth = 2 if tier == "quick" else 3
         items = []
         for sp, label in base_models(tmpdir):
-            for sim_abs in ((), (1,), (0, 2), (1, 30, 31), (1, 3, 1, 40), (2, 2), ("back", 1), ("back", 1, 3, 40, 41), ("resumed",), ("resumed", 3), ("revised", 3), ("revised", 2, 4)):
+            for sim_abs in ((), (1,), (0, 2), (1, 30, 31), (1, 3, 1, 40), (2, 2), ("back", 1), ("back", 1, 3, 40, 41), ("resumed",), ("resumed", 3), ("revised", 3), ("revised", 2, 4), ("looked-at",), ("looked-at", 1)):
                 if tier == "quick" and label.startswith("scale:") and sim_abs not in ((), (1,), ("back", 1), ("resumed",)):
                     continue  # (the medium-sized model takes four of the ten start states in the quick tier)
                 if label.startswith("long-") and sim_abs not in ((), (1, 30, 31)):
